@@ -294,6 +294,10 @@ class Screen(_raw_display_base.Screen):
         fds = self.get_input_descriptors()
         handles = [event_loop.watch_file(fd if isinstance(fd, int) else fd.fileno(), wrapper) for fd in fds]
         self._current_event_loop_handles = handles
+        if self._partial_codes:
+            # an incomplete sequence is still pending and unhook_event_loop() removed its completion alarm:
+            # parse again (with whatever arrived since), which sets a new alarm or decodes what is there
+            event_loop.alarm(0, wrapper)
 
     def _get_input_codes(self) -> list[int]:
         return super()._get_input_codes() + self._get_gpm_codes()
